@@ -41,6 +41,28 @@ def parseMeta (ts : List String) : Option Meta :=
     | _, _, _ => none
   | _ => none
 
+/-- exec / execp: <pw> <cmd> <dir> <nenv> <k=v>... <args>... -/
+def parseExec (ts : List String) : Option Meta :=
+  match ts with
+  | pw :: cmd :: dir :: ne :: rest =>
+    match bytesOfHex pw, bytesOfHex cmd, bytesOfHex dir, ne.toNat? with
+    | some p, some c, some d, some n =>
+      match hexAll (rest.take n), hexAll (rest.drop n) with
+      | some envs, some args => some { command := c, args := args, password := p, env := envs, workDir := d }
+      | _, _ => none
+    | _, _, _, _ => none
+  | _ => none
+
+def asciiStr (b : Bytes) : String := String.ofList (b.map (fun c => Char.ofNat c.toNat))
+
+def showSurface (pty : Bool) (e : ExecSurface) : String :=
+  let extra := if pty then e.envExtra.drop 1 else e.envExtra
+  let sorted := ((extra.map asciiStr).toArray.qsort (· < ·)).toList
+  let first := if pty then (match e.envExtra.head? with | some t => hexTok t ++ ";" | none => "") else ""
+  let inh := if e.envInherited then "inherit" else "copy"
+  " argv=" ++ ",".intercalate (e.argv.map hexTok) ++ " env=" ++ inh ++ ":" ++ first ++
+    (if sorted.isEmpty then "-" else ",".intercalate (sorted.map (fun x => hexTok x.toUTF8.toList))) ++ " dir=" ++ hexTok e.dir
+
 def step (s : S) (line : String) : S × String :=
   match tokens line with
   | "reset" :: ts =>
@@ -60,6 +82,16 @@ def step (s : S) (line : String) : S × String :=
         -- admitted sessions are started and immediately closed by the harness: slot released again
         let (v, n) := validateAndAcquire pwEq s.cfg m s.sessions
         (s, showV v n)
+      | none => (s, "bad-op")
+    else if op == "exec" || op == "execp" then
+      match parseExec ts with
+      | some m =>
+        let (v, n) := validateAndAcquire pwEq s.cfg m s.sessions
+        let line := showV v n
+        if v == .ok then
+          let sf := showSurface (op == "execp") (execSurface (op == "execp") "vt100".toUTF8.toList m)
+          if op == "execp" then (s, s!"anyof {line}{sf} | {line} unstarted") else (s, line ++ sf)
+        else (s, line)
       | none => (s, "bad-op")
     else if op == "argv" || op == "argvp" then
       match parseMeta ts with
@@ -92,7 +124,15 @@ def spec (s : S) (op : String) (implOut : String) : S × String :=
   | "stressv" :: _ =>
     (s, if tokens implOut == ["stress", "ok"] then "ok" else "fail sessions-exceeded")
   | kind :: ts =>
-    if kind == "argv" || kind == "argvp" then
+    if kind == "exec" || kind == "execp" then
+      match parseExec ts, tokens implOut with
+      | some m, "ok" :: _ :: av :: _ =>
+        if !authorised pwEq s.cfg m then (s, "fail unauthorised-start")
+        else if av.startsWith "argv=" && av != "argv=" ++ ",".intercalate ((processArgv m).map hexTok) then (s, "fail argv-differs-from-validated")
+        else (s, "ok")
+      | _, "panic" :: _ => (s, "fail crashed")
+      | _, _ => (s, "ok")
+    else if kind == "argv" || kind == "argvp" then
       match parseMeta ts, tokens implOut with
       | some m, ["ok", _, av] =>
         if !authorised pwEq s.cfg m then (s, "fail unauthorised-start")
